@@ -261,7 +261,9 @@ fn main() {
     for len in 0..=maxlen {
         for w in 0..=len + 3 {
             let xs = series(&mut rng, len);
-            let lens2: Vec<usize> = if len == 0 { vec![0, 1] } else { vec![len, len - 1, len + 1] };
+            let mut lens2: Vec<usize> = if len == 0 { vec![0, 1] } else { vec![len, len - 1, len + 1] };
+            // X12: window 0 with an EMPTY second series (built without the generator: the stream of the other cases is unchanged)
+            if w == 0 && len >= 2 { lens2.push(0); }
             let wrel = if w == 0 { "zero" } else if w > len { "gt" } else if w == len { "eq" } else { "lt" };
             let tg = |k: &str, l2: usize| format!("part=driver kind={} len={} wrel={} len2={}{}", k, len, wrel,
                 if l2 == len { "eq" } else if l2 < len { "shorter" } else { "longer" }, if len == 0 { " nt=0" } else { "" });
@@ -295,7 +297,7 @@ fn main() {
                 || ret!(len, len, xs.rolling_custom::<TraceOut<f64>, _, _>(w, |s: &[f64]| s.len() as f64, None).unwrap()));
             // two-series drivers, second series of equal / shorter / longer length
             for &l2 in lens2.iter() {
-                let ys = series(&mut rng, l2);
+                let ys = if w == 0 && len >= 2 && l2 == 0 { vec![] } else { series(&mut rng, l2) };
                 let tv2 = || TraceView::new(ys.clone(), 1, 0.0);
                 em.case("custom:trace", &tg("apply2_to", l2), &ds("apply2_to", l2), || term(1, l2),
                     || to!(len, l2, |b| tv().rolling2_apply::<TraceOut<f64>, _, _, _, _>(&tv2(), w, |_rm, v: (f64, f64)| v.0, b)));
@@ -314,6 +316,14 @@ fn main() {
                 } else {
                     em.case("custom:direct", &tg("apply2_ret_short", l2), &ds("apply2_ret_short", l2), || "(@nil Z)".to_string(),
                         || ret!(l2, l2, tv().rolling2_apply::<TraceOut<f64>, _, _, _, _>(&tv2(), w.max(1), |_rm, v: (f64, f64)| v.0, None).unwrap()));
+                    if w == 0 {
+                        // X12: the iterator bodies assert the window on SELF before zipping - also when the second
+                        // series is shorter or empty (the model: run_trace 9 = the guard on len, no access)
+                        em.case("custom:trace", &tg("apply2_ret_w0_short", l2), &ds("apply2_ret_w0_short", l2), || term(9, l2),
+                            || ret!(len, l2, tv().rolling2_apply::<TraceOut<f64>, _, _, _, _>(&tv2(), w, |_rm, v: (f64, f64)| v.0, None).unwrap()));
+                        em.case("custom:trace", &tg("idx2_ret_w0_short", l2), &ds("idx2_ret_w0_short", l2), || term(9, l2),
+                            || ret!(len, l2, tv().rolling2_apply_idx::<TraceOut<f64>, _, _, _, _>(&tv2(), w, |_s, _e, v: (f64, f64)| v.0, None).unwrap()));
+                    }
                 }
             }
         }
